@@ -56,23 +56,56 @@ def violators (n : Nat) (s : St) : List (Pid × Pid) :=
     if i != j && !decide (related s i j) && s.pc i == .hold && s.kind i == .ex && inBody (s.pc j)
     then some (i, j) else none
 
+/-- `"stale": [["E", 9], ..]`: lock files left behind by killed processes (kind, pid ≥ number of live processes) -/
+def ghostsOfJson (j : Json) : Except String (List (Kind × Pid)) :=
+  match j.getObjVal? "stale" with
+  | .ok (Json.arr a) => a.toList.mapM fun g => do
+      let l ← g.getArr?
+      let k ← match l[0]? with
+        | some (Json.str "E") => pure Kind.ex
+        | some (Json.str "S") => pure Kind.sh
+        | _ => throw "stale: kind"
+      let p ← match l[1]? with
+        | some v => v.getNat?
+        | none => throw "stale: pid"
+      pure (k, p)
+  | _ => pure []
+
+/-- schedule entries: `i ≥ 0` the next call of process `i`; `-(i+1)` a signal for process `i`; `1000000`
+`eups admin clearLocks`; `1000001` `eups admin listLocks` -/
+def evClear : Int := 1000000
+def evList : Int := 1000001
+
+/-- what `listLocks` shows: the lockers' pids (it prints user and pid, not the kind of lock) -/
+def sortedListing (fs : List (Kind × Pid)) : String :=
+  "[" ++ ",".intercalate (((fs.map (·.2)).toArray.qsort (· < ·)).toList.map toString) ++ "]"
+
 def opRun (j : Json) : Except String Json := do
   let ps := (← (← jarr j "procs").mapM procOfJson).toArray
+  let ghosts ← ghostsOfJson j
   -- a schedule entry i ≥ 0 is the next call of process i; an entry -(i+1) is a signal delivered to process i
   let sched ← (← jarr j "sched").mapM fun v => v.getInt?
   let n := ps.size
-  let mut s := initOf ps
+  let kind : Pid → Kind := fun i => match ghosts.find? (fun g => g.2 == i) with | some g => g.1 | none => kindOf ps i
+  let mut s := if ghosts.isEmpty then initOf ps else initStale kind (lpOf ps) (triesOf ps) ghosts
   let mut steps : Array Json := #[]
   for e in sched do
-    let i := if e ≥ 0 then e.toNat else (-e - 1).toNat
-    if i ≥ n then throw s!"pid {i} out of range"
-    let (cs, rs) :=
-      if e ≥ 0 then (let (c, r) := obs s i; (callStr c, resStr r))
-      else ("signal", if s.pc i == .hold then "delivered" else "ignored")
-    s := if e ≥ 0 then step s i else interrupt s i
-    let v := violators n s
-    steps := steps.push (Json.arr #[toJson i, cs, rs,
-      Json.arr (v.map fun (a, b) => Json.arr #[toJson a, toJson b]).toArray])
+    if e == evClear || e == evList then
+      let rs := if e == evClear then "ok" else (if s.dir then sortedListing s.files else "-")
+      s := if e == evClear then clearLocks s else s
+      let v := violators n s
+      steps := steps.push (Json.arr #[toJson (-1 : Int), (if e == evClear then "clearLocks" else "listLocks"), rs,
+        Json.arr (v.map fun (a, b) => Json.arr #[toJson a, toJson b]).toArray])
+    else
+      let i := if e ≥ 0 then e.toNat else (-e - 1).toNat
+      if i ≥ n then throw s!"pid {i} out of range"
+      let (cs, rs) :=
+        if e ≥ 0 then (let (c, r) := obs s i; (callStr c, resStr r))
+        else ("signal", if s.pc i == .hold then "delivered" else "ignored")
+      s := if e ≥ 0 then step s i else interrupt s i
+      let v := violators n s
+      steps := steps.push (Json.arr #[toJson i, cs, rs,
+        Json.arr (v.map fun (a, b) => Json.arr #[toJson a, toJson b]).toArray])
   pure (Json.mkObj [
     ("steps", Json.arr steps),
     ("pcs", Json.arr ((List.range n).map fun i => Json.str (pcStr s i)).toArray),
